@@ -36,6 +36,16 @@ pub struct Walrus {
     pub(super) fsync_schedule: FsyncSchedule,
 }
 
+impl Drop for Walrus {
+    fn drop(&mut self) {
+        // clean/dirty markers are persisted by a background thread; make them durable
+        // before the instance goes away
+        if let Err(err) = self.topic_clean_tracker.flush_and_close() {
+            debug_print!("[clean] flush on drop failed: {}", err);
+        }
+    }
+}
+
 impl Walrus {
     pub fn new() -> std::io::Result<Self> {
         Self::with_consistency(ReadConsistency::StrictlyAtOnce)
